@@ -7,6 +7,8 @@ CONSTANTS
   MaxTs = 3
   MaxRepl = 3
   MaxWrites = 3
+  RecycleAge = 0
+  Window = 0
   MergeRestamp = TRUE
   NoSkew = FALSE
   ArmQuota = 0
